@@ -159,7 +159,7 @@ theorem loc_err_noop (env : Env) (c : Cmd) (v : Option Val)
         rw [filter_eq_self_of_length _ _ hl, sortB_of_sorted l (hsorted l rfl)]
   | updHttpL p =>
     simp only [loc] at herr ⊢
-    by_cases hk : knobsValid p.knobs = true
+    by_cases hk : knobsValid Consts.stateShrinkRatioMinHttp p.knobs = true
     · simp only [hk] at herr ⊢
       cases v with
       | none => rfl
@@ -169,7 +169,7 @@ theorem loc_err_noop (env : Env) (c : Cmd) (v : Option Val)
     · simp [hk]
   | updHttpsL p =>
     simp only [loc] at herr ⊢
-    by_cases hk : knobsValid p.knobs = true
+    by_cases hk : knobsValid Consts.stateShrinkRatioMinHttps p.knobs = true
     · simp only [hk] at herr ⊢
       cases v with
       | none => rfl
@@ -380,6 +380,43 @@ theorem C06_diff_reaches_target_counterexample_cert_content :
   refine ⟨by decide, ?_⟩
   intro h
   exact absurd (h (.certs 7)) (by decide)
+
+/-- **C06 (diff reaches the target), proved part: clusters and http/https frontends.** For
+    well-formed `A` and `B`, after replaying `diff A B` on `A` every cluster entry (health check
+    included) and every http / https frontend entry is exactly the one of `B`. (Listeners,
+    backends, tcp/udp fronts and certificates: see the counterexamples above for the last three;
+    they are tied to the code by the differential runs only.) -/
+theorem C06_diff_reaches_target_partial (env : Env) (A B : St) (hA : WF env A) (hB : WF env B) (t : Target)
+    (ht : sectionOf t = 4 ∨ sectionOf t = 5 ∨ sectionOf t = 7) :
+    look (run env A (diff A B)) t = look B t := by
+  have sk : ∀ (w : Option Val) (cs : List Cmd) (n : Nat), n ≠ sectionOf t →
+      (∀ c ∈ cs, ∃ t', tgt c = some t' ∧ sectionOf t' = n) → foldT env t w cs = w := by
+    intro w cs n hn h
+    apply foldT_skip_sec
+    intro c hc
+    obtain ⟨t', h1, h2⟩ := h c hc
+    exact ⟨t', h1, by omega⟩
+  rw [look_run, foldT_diff_nonlistener env A B t _ (by omega)]
+  simp only [foldT_append]
+  cases t <;> simp [sectionOf] at ht
+  case cluster id =>
+    rw [clusters_reach env A B hA hB id,
+      sk _ _ 10 (by simp [sectionOf]) (sec_backends A B), sk _ _ 5 (by simp [sectionOf]) (sec_fronts A B false),
+      sk _ _ 7 (by simp [sectionOf]) (sec_fronts A B true), sk _ _ 8 (by simp [sectionOf]) (sec_tcpFronts A B false),
+      sk _ _ 9 (by simp [sectionOf]) (sec_tcpFronts A B true), sk _ _ 6 (by simp [sectionOf]) (sec_certs A B)]
+  case httpF k =>
+    rw [sk _ _ 4 (by simp [sectionOf]) (sec_clusters A B), sk _ _ 10 (by simp [sectionOf]) (sec_backends A B)]
+    have := fronts_reach env A B hA hB false k
+    simp only [frontT, Bool.false_eq_true, if_false] at this
+    rw [this, sk _ _ 7 (by simp [sectionOf]) (sec_fronts A B true), sk _ _ 8 (by simp [sectionOf]) (sec_tcpFronts A B false),
+      sk _ _ 9 (by simp [sectionOf]) (sec_tcpFronts A B true), sk _ _ 6 (by simp [sectionOf]) (sec_certs A B)]
+  case httpsF k =>
+    rw [sk _ _ 4 (by simp [sectionOf]) (sec_clusters A B), sk _ _ 10 (by simp [sectionOf]) (sec_backends A B),
+      sk _ _ 5 (by simp [sectionOf]) (sec_fronts A B false)]
+    have := fronts_reach env A B hA hB true k
+    simp only [frontT, if_true] at this
+    rw [this, sk _ _ 8 (by simp [sectionOf]) (sec_tcpFronts A B false),
+      sk _ _ 9 (by simp [sectionOf]) (sec_tcpFronts A B true), sk _ _ 6 (by simp [sectionOf]) (sec_certs A B)]
 
 /-! ## C05 — a configuration survives every save / replay path unchanged -/
 
